@@ -349,20 +349,35 @@ PROPS['C12'] = dict(
 
 
 # ---------------------------------------------------------------- C14, C15, C17 (h_misc)
+def c14_tsan(tier, sc):
+    p = Pass('tsan', 'h_misc.tsan', 'C14thr', n(tier, 60, 400, sc), chunk=4, stall_s=600, env={'TSAN_OPTIONS': 'halt_on_error=0:report_signal_unsafe=0'})
+    p.scan = 'tool'
+    return p
+
+
+def c17_tsan(tier, sc):
+    p = Pass('tsan', 'h_misc.tsan', 'C17thr', n(tier, 60, 400, sc), chunk=4, stall_s=600, env={'TSAN_OPTIONS': 'halt_on_error=0:report_signal_unsafe=0'})
+    p.scan = 'tool'
+    return p
+
+
 PROPS['C14'] = dict(
     level_text='Exploration against a quadrature oracle: the convolution integral of the ORIGINAL table (long-double reference evaluation) with the unit-area kernel B-spline is integrated '
                'piecewise between all breakpoints with 8-point Gauss-Legendre (exact for the polynomial degrees involved) and compared with the evaluated convolved table at points across '
                'the new knot range incl. knots and margins; plus exact checks of the new order, the new knot vector (sorted pairwise sums), untouched other dimensions, well-formedness and the C wrapper.',
     level_note=NOTE_COMMON + '; bound K=400 on |lib-integral|/(2^-24 M) fixed from the measured error distribution (see errratio counters)',
-    technique='runtime monitor: quadrature oracle for the convolution integral + structural invariants, under ASan/UBSan',
-    targets=[T('h_misc.cpp', 'asan'), T('h_misc.cpp', 'prod')],
+    technique='runtime monitor: quadrature oracle for the convolution integral + structural invariants, under ASan/UBSan; concurrent independent convolutions compared with sequential ones, under ThreadSanitizer',
+    targets=[T('h_misc.cpp', 'asan'), T('h_misc.cpp', 'prod'), T('h_misc.cpp', 'tsan')],
     passes=lambda tier, sc: [Pass('asan', 'h_misc.asan', 'C14', n(tier, 360, 1500, sc), stall_s=300),
-                             Pass('prod', 'h_misc.prod', 'C14', n(tier, 900, 3000, sc), stall_s=300)],
+                             Pass('prod', 'h_misc.prod', 'C14', n(tier, 900, 3000, sc), stall_s=300),
+                             # four threads convolving their own tables at once: same result as sequentially (prod) and no report from ThreadSanitizer
+                             Pass('thr', 'h_misc.prod', 'C14thr', n(tier, 200, 1500, sc), stall_s=300),
+                             c14_tsan(tier, sc)],
     level='exploration',
     rule='case = (table of 1-4 dims, order 0-5 in the convolved dimension, any dimension index, irregular knots, kernel of 2-6 increasing knots, symmetric or not, 0.05x-5x the knot spacing) x 10-60 points; '
          'distinct_nontrivial counts distinct (table, kernel, point) triples with M>0',
     assumptions=ASSUME_COMMON,
-    require={'any': {'points-checked': 1500, 'C-wrapper-comparisons': 100, 'order:0': 5, 'order:5': 5}},
+    require={'any': {'points-checked': 1500, 'C-wrapper-comparisons': 100, 'order:0': 5, 'order:5': 5, 'concurrent-convolution-rounds': 150, 'axis-unit:1e-09': 20}},
 )
 PROPS['C15'] = dict(
     level_text='Exhaustive over all 153 permutations of 1-5 dimensions (plus sampled 6-d ones) on tables whose axes have pairwise different lengths, orders, extents and periods: every per-dimension attribute, '
@@ -381,13 +396,15 @@ PROPS['C17'] = dict(
     level_text='Exploration: grid evaluation of sparse-coefficient tables (50-95% exact zeros, whole zero edge hyperplanes) on arbitrary grids (unsorted, repeated, outside, on-knot, single-point axes) compared entry by entry '
                'with pointwise evaluation and with the long-double reference (so a disagreement is attributed to the side that is wrong); index ranges, index bounds, duplicates and unlisted points are checked; C wrapper compared bitwise.',
     level_note=NOTE_COMMON,
-    technique='runtime differential monitor (grid vs pointwise vs reference), under ASan/UBSan',
-    targets=[T('h_misc.cpp', 'asan')],
-    passes=lambda tier, sc: [Pass('asan', 'h_misc.asan', 'C17', n(tier, 3000, 12000, sc), stall_s=300)],
+    technique='runtime differential monitor (grid vs pointwise vs reference), under ASan/UBSan; concurrent independent grid evaluations compared with sequential ones, under ThreadSanitizer',
+    targets=[T('h_misc.cpp', 'asan'), T('h_misc.cpp', 'prod'), T('h_misc.cpp', 'tsan')],
+    passes=lambda tier, sc: [Pass('asan', 'h_misc.asan', 'C17', n(tier, 3000, 12000, sc), stall_s=300),
+                             Pass('thr', 'h_misc.prod', 'C17thr', n(tier, 200, 1500, sc), stall_s=300),
+                             c17_tsan(tier, sc)],
     level='exploration',
     rule='case = (sparse table of 1-4 dims with mixed orders 0-4 and repeated knots, grid) ; every grid point strictly inside the knot range is judged; distinct_nontrivial counts distinct (table, grid point) pairs judged',
     assumptions=ASSUME_COMMON,
-    require={'any': {'grid-points-checked': 3000, 'grid-points-unlisted': 100, 'tables-with-zero-edge-hyperplanes': 50, 'C-wrapper-comparisons': 200}},
+    require={'any': {'grid-points-checked': 3000, 'grid-points-unlisted': 100, 'tables-with-zero-edge-hyperplanes': 50, 'C-wrapper-comparisons': 200, 'concurrent-grideval-rounds': 150, 'long-grids': 5, 'tables-with-all-coefficients-zero': 30}},
 )
 
 
